@@ -545,12 +545,13 @@ def make_gate(P):
             M = np.asarray(qtn.Gate(label, params, qubits=list(range(nq))).array, dtype=complex).reshape(2 ** nq, 2 ** nq)
         Uin = None
     parametrize = (not raw) and TABLE[label][1] > 0 and P.kind == "Circuit" and not controls and \
-        P.opts.get("gate_contract") in ("default", "False", "auto-split-gate") and rng.integers(0, 3) == 0
+        P.opts.get("gate_contract") in ("default", "False", "auto-split-gate") and rng.integers(0, 2) == 0
     spelling = int(rng.integers(0, 5))
     tensor_form = bool(rng.integers(0, 2))
     gopts = {}
     if P.kind == "Circuit" and rng.integers(0, 8) == 0 and not parametrize:
-        c = str(rng.choice(["auto-split-gate", "split-gate", "swap-split-gate", "False", "False", "True"]))
+        c = str(rng.choice(["auto-split-gate", "auto-split-gate", "split-gate", "split-gate", "swap-split-gate", "swap-split-gate",
+                            "False", "False", "False", "True"]))
         gopts["contract"] = {"False": False, "True": True}.get(c, c)
     g = dict(label=label, params=params, qubits=qubits, controls=controls, M=M, parametrize=parametrize)
 
@@ -636,6 +637,8 @@ def do_gate(cx, P, g, tag="gate"):
         P.flags["copied_since_gate"] = False
         if g["desc"]["gate_opt"] == "True":
             P.flags["contract_true_gate"] = True
+            if P.opts.get("gate_contract") != "True":
+                P.quirks.add("mixed-contract-true")  # a gate merged into tensors of an otherwise lazy circuit
         if g["label"] == "IDEN" and g["controls"]:
             P.quirks.add("ctrl-iden")
         if P.kind == "Circuit" and len(g["controls"]) >= 2 and g["desc"]["eff_contract"] != "True":
@@ -776,7 +779,7 @@ def q_uni(P):
 
 def _where(P, key, nmax=2):
     rng, N = P.rng, P.N
-    if key in P.last and rng.integers(0, 2):
+    if key in P.last and (getattr(P, "force_last", False) or rng.integers(0, 2)):
         return P.last[key]
     n = int(rng.integers(1, min(nmax, N) + 1))
     w = tuple(_pick_qubits(rng, N, n))
@@ -1199,7 +1202,7 @@ def programs(cx):
         _ctp._IS_WORKER = True
     except Exception:  # noqa
         pass
-    nprog = 2400 if cx.quick else 30000
+    nprog = 2400 if cx.quick else 24000
     only_h = _hist_from_key(cx.only_key) if cx.only_key is not None else None
     skip_to = _hist_from_key(cx.resume_after) if cx.resume_after is not None else None
     for pid in range(nprog):
@@ -1249,16 +1252,38 @@ def run_query(cx, P):
     if act == "sample_interleaved":
         q_sample_interleaved(cx, P)
         return True
+    if act == "set_params":
+        # the same (cached) query before and after the parameter update
+        qf = [q_to_dense, q_amplitude, q_partial_trace, q_local_expectation, q_compute_marginal][int(rng.integers(0, 5))]
+        for k in ("keep", "where", "mwhere"):
+            P.last.pop(k, None)
+        if not _run_made(cx, P, qf(P)):
+            return False
+        made = a_set_params(P)
+        if made is None:
+            return True
+        if not _run_made(cx, P, made):
+            return False
+        P.force_last = True  # same qubits as before the update
+        try:
+            post = qf(P)
+        finally:
+            P.force_last = False
+        return _run_made(cx, P, post, suffix=" (repeated after a parameter update)")
     made = {"to_dense": q_to_dense, "amplitude": q_amplitude, "partial_trace": q_partial_trace,
             "local_expectation": q_local_expectation, "compute_marginal": q_compute_marginal, "sample": q_sample,
             "sample_chaotic": q_sample_chaotic, "sample_gate_by_gate": q_sample_gate_by_gate,
             "simulate_counts": q_simulate_counts, "copy": a_copy, "psi": q_psi_dense, "set_params": a_set_params,
             "uni": q_uni}[act](P)
+    return _run_made(cx, P, made)
+
+
+def _run_made(cx, P, made, suffix=""):
     if made is None:
         return True
     name, extra, thunk = made[:3]
     after = made[3] if len(made) > 3 else None
-    params = dict(P.base(), action=name, step=P.step, **extra)
+    params = dict(P.base(), action=name + suffix, step=P.step, **extra)
     params.setdefault("rejected_before", P.flags["rejected_before"])
     box = {}
 
